@@ -13,7 +13,10 @@ Inductive c15case :=
 | CBigCorrupt (len comp cks : N) (pos : N) (lib_detects : bool) (go : oclass)
 (* the envelope as datatype/keyvalue uses it: POST key then GET key on an instance created with the given
    compression and checksum; [got] is what the GET answered *)
-| CKV (comp cks : N) (data : bytes) (put_ok : bool) (got : res bytes).
+| CKV (comp cks : N) (data : bytes) (put_ok : bool) (got : res bytes)
+(* a metadata value as found in the store (datastore/repo_local.go saveToStore): key class, its format byte, its
+   length, and whether every sampled single-bit alteration of its payload was reported as an error on reading *)
+| CMeta (class fmtbyte len : N) (all_detected : bool).
 
 Definition res_eqb {A} (eqb : A -> A -> bool) (a b : res A) : bool :=
   match a, b with
@@ -48,6 +51,7 @@ Definition model_ok (c : c15case) : bool :=
   | CBigSer _ _ _ _ _ _ => true
   | CBigCorrupt _ _ _ _ _ _ => true
   | CKV _ _ data put_ok got => put_ok && res_eqb bytes_eqb got (Ok data)
+  | CMeta class f _ det => if class =? n_repoKey then (dec_cks f =? n_CRC32) && det else true
   end.
 
 (* property-level oracle evaluated on what the implementation returned.
@@ -101,6 +105,9 @@ Definition spec_class (c : c15case) : nat :=
   | CKV comp cks data put_ok got =>
     if is_panic got then 1%nat
     else if put_ok && negb (res_eqb bytes_eqb got (Ok data)) then 2%nat else 0%nat
+  | CMeta class f _ det =>
+    (* stored repos are saved with a checksum, so an altered stored repo is reported, not loaded *)
+    if (class =? n_repoKey) && negb ((dec_cks f =? n_CRC32) && det) then 3%nat else 0%nat
   end.
 
 Fixpoint classify_from (i : nat) (l : list c15case) : list (nat * nat) :=
